@@ -13,38 +13,38 @@ open Jelly Jelly.Py
 def encode_spo (enc encG : Term → M TermEnc (List Row × WTerm)) (exc : PyErr) (terms : List Term) (statement : PStmt) : M EncState (List Row × List Term × PStmt) := do
   let mut terms := terms
   let mut statement := statement
-  let mut more_rows : List Row := []
+  let mut extra_rows : List Row := []
   let mut rows : List Row := []
   let mut o : Term := default
   let mut p : Term := default
-  let mut subj : Term := default
+  let mut s : Term := default
   rows := ([] : List Row)
   let t1__ ← liftE (pyNext exc terms)
-  subj := t1__.1
+  s := t1__.1
   terms := t1__.2
-  if (← get).rep.s != some subj then
-    let t2__ ← zoom (·.te) (fun st v => { st with te := v }) (enc subj)
-    more_rows := t2__.1
+  if (← get).rep.s != some s then
+    let t2__ ← zoom (·.te) (fun st v => { st with te := v }) (enc s)
+    extra_rows := t2__.1
     statement := { statement with s := some t2__.2 }
-    rows := rows ++ more_rows
-    modify fun st => { st with rep := { st.rep with s := some subj } }
+    rows := rows ++ extra_rows
+    modify fun st => { st with rep := { st.rep with s := some s } }
   let t3__ ← liftE (pyNext exc terms)
   p := t3__.1
   terms := t3__.2
   if (← get).rep.p != some p then
     let t4__ ← zoom (·.te) (fun st v => { st with te := v }) (enc p)
-    more_rows := t4__.1
+    extra_rows := t4__.1
     statement := { statement with p := some t4__.2 }
-    rows := rows ++ more_rows
+    rows := rows ++ extra_rows
     modify fun st => { st with rep := { st.rep with p := some p } }
   let t5__ ← liftE (pyNext exc terms)
   o := t5__.1
   terms := t5__.2
   if (← get).rep.o != some o then
     let t6__ ← zoom (·.te) (fun st v => { st with te := v }) (enc o)
-    more_rows := t6__.1
+    extra_rows := t6__.1
     statement := { statement with o := some t6__.2 }
-    rows := rows ++ more_rows
+    rows := rows ++ extra_rows
     modify fun st => { st with rep := { st.rep with o := some o } }
   return (rows, terms, statement)
 
@@ -52,21 +52,21 @@ def encode_spo (enc encG : Term → M TermEnc (List Row × WTerm)) (exc : PyErr)
 def encode_triple (enc encG : Term → M TermEnc (List Row × WTerm)) (exc : PyErr) (terms : List Term) : M EncState (List Row) := do
   let mut terms := terms
   let mut rows : List Row := []
-  let mut saved : Repeated := {}
-  let mut message : PStmt := {}
-  message := ({} : PStmt)
+  let mut previous : Repeated := {}
+  let mut triple : PStmt := {}
+  triple := ({} : PStmt)
   zoom (·.te) (fun st v => { st with te := v }) TermEncoder.start_row
-  saved := (← get).rep
+  previous := (← get).rep
   try
-    let t1__ ← encode_spo enc encG exc terms message
+    let t1__ ← encode_spo enc encG exc terms triple
     rows := t1__.1
     terms := t1__.2.1
-    message := t1__.2.2
+    triple := t1__.2.2
   catch e__ =>
-    modify fun st => { st with rep := saved }
+    modify fun st => { st with rep := previous }
     throw e__
   zoom (·.te) (fun st v => { st with te := v }) TermEncoder.end_row
-  rows := rows ++ [Row.triple message.s message.p message.o]
+  rows := rows ++ [Row.triple triple.s triple.p triple.o]
   return rows
 
 /-- `encode_quad` (pyjelly/serialize/encode.py:349) -/
